@@ -288,12 +288,18 @@ class AutoSerialize:
                 self._recursive_save(self, root, skip_names, skip_types, compressors)
                 write_skip_metadata(root)
                 # Zip up all files in tempdir
-                with ZipFile(path, mode="w") as zf:
-                    for dirpath, _, filenames in os.walk(tmpdir):
-                        for filename in filenames:
-                            full_path = os.path.join(dirpath, filename)
-                            rel_path = os.path.relpath(full_path, tmpdir)
-                            zf.write(full_path, arcname=rel_path)
+                try:
+                    with ZipFile(path, mode="w") as zf:
+                        for dirpath, _, filenames in os.walk(tmpdir):
+                            for filename in filenames:
+                                full_path = os.path.join(dirpath, filename)
+                                rel_path = os.path.relpath(full_path, tmpdir)
+                                zf.write(full_path, arcname=rel_path)
+                except BaseException:
+                    # never leave a truncated (but readable) archive behind
+                    if os.path.exists(path):
+                        os.remove(path)
+                    raise
         elif store == "dir":
             # Directory mode requires no extension
             if os.path.splitext(path)[1]:
